@@ -31,7 +31,7 @@ RULE = (
 )
 ASSUMPTIONS = ["writes are observed through Python's audit events and stat snapshots (a C extension writing behind Python's back would only be seen by the snapshot, and only inside the scratch area)"]
 BUDGET = {"quick": (160, 4), "thorough": (30000, 16)}
-REQUIRED = ["failing_command", "nested_world", "flatten_existing_dest", "flatten_relative_dest", "create_new_ascmhl", "tampered", "readonly_ok", "create_sf", "create_sf_beside_history", "leftover_partial"]
+REQUIRED = ["failing_command", "nested_world", "flatten_existing_dest", "flatten_relative_dest", "create_new_ascmhl", "tampered", "readonly_ok", "create_sf", "create_sf_beside_history", "leftover_partial", "flatten_refused_existing_empty_dest"]
 
 CFG = {
     "kinds": ["create"] * 5 + ["create_sf"] + ["put_new", "overwrite", "rm", "mkdir", "mv"],
@@ -42,7 +42,7 @@ CFG = {
     "long_every": 6,
 }
 PROBES = ["verify", "verify_sf", "verify_dh", "verify_dh_co", "verify_dh_ro", "verify_pl", "diff", "info", "info_sf", "hash", "xsd", "xsd_df",
-          "flatten", "flatten", "create", "create", "create_sf", "create_n", "create_dr", "create_i", "create_sub"]
+          "flatten", "flatten", "flatten_nohist", "create", "create", "create_sf", "create_n", "create_dr", "create_i", "create_sub"]
 
 
 @st.composite
@@ -190,6 +190,17 @@ def run_case(scn, ctx):
                     continue
                 xs = os.path.join(ctx.repo, "xsd", "ASCMHL.xsd" if probe == "xsd" else "ASCMHLDirectory__combined.xsd")
                 args = ("xsd_schema_check", [w.abs(cand[k % len(cand)]), "-xsd", xs] + (["-df"] if probe == "xsd_df" else []))
+            elif probe == "flatten_nohist":
+                # refused (exit 30): the source folder has no history; the destination exists already and is empty, and so
+                # are the folders above it
+                kind = "flatten"
+                relcwd = None
+                if "_nohist/src/clip.mov" not in w.files:
+                    w.put("_nohist/src/clip.mov", "never sealed")
+                w.mkdir("_nohist/empty/dest%d" % k)
+                dest = allowed_prefix = "_nohist/empty/dest%d" % k
+                args = ("flatten", [w.abs("_nohist/src"), w.abs(dest)])
+                feats.add("flatten_refused_existing_empty_dest")
             elif probe == "flatten":
                 kind = "flatten"
                 relcwd = None
@@ -271,6 +282,8 @@ def run_case(scn, ctx):
                 for p in changed:
                     ok = p == allowed_prefix or p.startswith(allowed_prefix + "/") or (p == posixpath.dirname(allowed_prefix) and allowed_prefix not in before)
                     require(ok, "flatten-changes-elsewhere", "flatten changed %r (destination %r): %r -> %r" % (p, allowed_prefix, before.get(p), after.get(p)), res)
+                if allowed_prefix in before:
+                    require(allowed_prefix in after, "flatten-removes-destination", "flatten (%s) removed its pre-existing destination folder %r" % (res.brief(), allowed_prefix), res)
                 keep = "_flat/existing/keep.txt"
                 require(before.get(keep) == after.get(keep), "flatten-clobbers", "flatten altered a pre-existing file in its destination", res)
             else:
